@@ -178,6 +178,24 @@ pub mod choice {
         *CHOOSER.lock().unwrap() = Some(c);
     }
 
+    /// Chooses the shard for `SET SHARD TO ANY` among `n` shards.
+    pub type ShardChooser = Box<dyn FnMut(usize) -> usize + Send>;
+
+    static SHARD_CHOOSER: Mutex<Option<ShardChooser>> = Mutex::new(None);
+
+    pub fn set_shard_chooser(c: ShardChooser) {
+        *SHARD_CHOOSER.lock().unwrap() = Some(c);
+    }
+
+    /// Replace the random shard of `SET SHARD TO ANY` by a harness-chosen one.
+    pub fn any_shard(n: usize) -> usize {
+        let mut guard = SHARD_CHOOSER.lock().unwrap();
+        match guard.as_mut() {
+            Some(c) => c(n) % n.max(1),
+            None => 0,
+        }
+    }
+
     /// Replace the outcome of `shuffle` by a harness-chosen order. The list is
     /// popped from the back by the caller, so the *last* element is tried first.
     pub fn order_candidates(candidates: &mut Vec<&Address>) {
